@@ -151,6 +151,12 @@ func propC04(c *ctx) error {
 		{`<p :range="i, s : sts" :title="${s.B}"><i :text="${s.A + i}">o</i><b :range="_, l : s.L" :text="${l}${i}">o</b></p>`, `<p title="one"><i>2</i><b>11</b><b>21</b></p><p title="two"><i>4</i><b>12</b><b>22</b></p>`},
 		{`<div :range="i, x : ints"><span :range="i, y : ints" :text="${i}${x}${y}">o</span>|<em :text="${i}">o</em></div>`, `<div><span>144</span><span>245</span>|<em>1</em></div><div><span>154</span><span>255</span>|<em>2</em></div>`},
 		{`<a :range="k, v : m1" :href="${k}" :text="${v}">o</a><b :text="${a}">after</b>`, `<a href="only">7</a><b>1</b>`},
+		// the object expression may begin and end with a quoted string literal
+		{`<i :range="i, c : 'ab'" :text="${i}:${c}">o</i>`, `<i>1:97</i><i>2:98</i>`},
+		{`<i :range='_, c : "ab" + "c"' :text="${c}">o</i>`, `<i>97</i><i>98</i><i>99</i>`},
+		{`<i :range="_, c : 'a' + 'b'" :text="${c}">o</i>`, `<i>97</i><i>98</i>`},
+		{`<i :range="'ab'" :text="x">o</i>`, `<i>x</i><i>x</i>`},
+		{`<i :range="_, v : m1['only'] == 7 ? 'y' : 'no'" :text="${v}">o</i>`, `<i>121</i>`},
 		// the following blank text separates CONSECUTIVE ITEMS, whether or not an item produced any output
 		{"<t:block :range=\"_, x : ints\"><b :if=\"${x > 4}\" :text=\"${x}\">o</b></t:block>\n<i>after</i>", "\n<b>5</b>\n<i>after</i>"},
 		{"<u :range=\"_, x : ints\" :remove=\"all\">o</u>\n <i>after</i>", "\n \n <i>after</i>"},
